@@ -153,7 +153,8 @@ CLAIMED["C18"] = (
     "Snapshot / operate / snapshot with symbolic leaves: a scenario whose positions, velocities and interval bounds are symbolic "
     "(trajectory state class and goal-lanelet table kind chosen by forks) is observed through its public attributes, the element "
     "tree of an XML export and the message tree of a protobuf export; a symbolically chosen history of 1 (quick) / 2 (thorough) "
-    "read-only operations (obstacle / scenario / lanelet / traffic-light queries with symbolic time steps, goal checks, ==, hash, "
+    "read-only operations (obstacle / scenario / lanelet / traffic-light queries with symbolic time steps, further look-ups such as "
+    "find_lanelet_by_shape, map_obstacles_to_lanelets, get_obstacles, successor enumeration and str(), goal checks, ==, hash, "
     "deepcopy, XML export, protobuf export) runs on the real code; z3 proves every leaf of the second observation equal to the "
     "first and the structure is compared per path. Pickling and drawing + rendering cannot carry proxies: they are explored over "
     "every discrete alternative on concrete leaves with the real lxml / protobuf bytes as observation.",
